@@ -233,11 +233,14 @@ func verifNewSegmentStub(memory bool) *segment {
 // opened and written) while the client is still reading.
 func VerifSegmentStableWhileRead() {
 	pl := NewPlaylist()
+	// memory mode (pooled buffers) or disk mode (files of the modelled file system: a removed
+	// file stays readable through a handle opened before the removal, as on POSIX)
+	disk := symapi.Bool("disk")
 	mk := func(seq int, fill byte) *segment {
-		s := newSegment(true)
+		s := newSegment(!disk)
 		s.sequenceNo = seq
 		s.duration = 5
-		symapi.Assert(s.file.open("x") == nil, "open-ok")
+		symapi.Assert(s.file.open(symapi.TempPath("seg"+strconv.Itoa(seq)+".ts")) == nil, "open-ok")
 		fr := &mpegts.Frame{Pid: 256, StreamID: 0xe0, Pts: 1, Dts: 1, Payload: []byte{fill, fill, fill}}
 		symapi.Assert(s.file.writeFrame(fr) == nil, "write-ok")
 		s.file.close()
